@@ -601,16 +601,18 @@ theorem closed_jump1 {L R : Code} {a : Abs} {sb : St} {cnd : JumpCond} {off : In
 
 
 /-- the piece boundaries of `L; JUMP; M; JUMP; R` -/
-def Bound2 (l m r : Nat) (t : Int) : Prop :=
-  t = 0 ∨ t = l ∨ t = l + 1 ∨ t = l + 1 + m ∨ t = l + 1 + m + 1 ∨ t = l + 1 + m + 1 + r
+def Bound2 (inR : Bool) (known : List String) (L : Code) (a : Abs) (m r : Nat) (t : Int) : Prop :=
+  (0 ≤ t ∧ t ≤ L.length ∧ run inR known L (none, a) t.toNat = (none, a)) ∨
+    t = L.length + 1 ∨ t = L.length + 1 + m ∨ t = L.length + 1 + m + 1 ∨
+    t = L.length + 1 + m + 1 + r
 
 /-- `L; JUMP; M; JUMP; R` with closed `L`, `M`, `R`: both jumps may land on any piece boundary
 (if/else, and the test/back-jump pair of a loop) -/
 theorem closed_jump2 {L M R : Code} {a : Abs} {sb : St} {c1 c2 : JumpCond} {o1 o2 : Int}
     (hL : ClosedB inR il known L (none, a) sb) (hM : ClosedB inR il known M (none, a) sb)
     (hR : ClosedB inR il known R (none, a) sb) (hc1 : c1 ≠ .indirect) (hc2 : c2 ≠ .indirect)
-    (ht1 : Bound2 L.length M.length R.length ((L.length : Int) + o1))
-    (ht2 : Bound2 L.length M.length R.length ((L.length : Int) + 1 + M.length + o2)) :
+    (ht1 : Bound2 inR known L a M.length R.length ((L.length : Int) + o1))
+    (ht2 : Bound2 inR known L a M.length R.length ((L.length : Int) + 1 + M.length + o2)) :
     ClosedB inR il known
       (L ++ ([G.i (.jump c1 o1)] ++ (M ++ ([G.i (.jump c2 o2)] ++ R)))) (none, a) sb := by
   have hJ1 := fin_jump (inR := inR) (known := known) (a := a) hc1 o1
@@ -643,12 +645,13 @@ theorem closed_jump2 {L M R : Code} {a : Abs} {sb : St} {c1 c2 : JumpCond} {o1 o
     subst hC
     rw [Nat.add_assoc, Nat.add_assoc, Nat.add_assoc, run_skip _ hL.fin, s1, run_skip _ hM.fin, s2,
       hR.fin]
-  have hb : ∀ t : Int, Bound2 L.length M.length R.length t →
+  have hb : ∀ t : Int, Bound2 inR known L a M.length R.length t →
       0 ≤ t ∧ t ≤ C.length ∧ run inR known C (none, a) t.toNat = (none, a) := by
     intro t ht
-    rcases ht with h | h | h | h | h | h
-    · subst h; exact ⟨by omega, by omega, by simpa using b0⟩
-    · subst h; exact ⟨by omega, by omega, by simpa using b1⟩
+    rcases ht with h | h | h | h | h
+    · refine ⟨h.1, by omega, ?_⟩
+      subst hC
+      rw [run_append_left _ (by omega), h.2.2]
     · have e : t.toNat = L.length + 1 := by omega
       rw [e]; exact ⟨by omega, by omega, b2⟩
     · have e : t.toNat = L.length + 1 + M.length := by omega
